@@ -201,3 +201,104 @@ func (g *G) followUp(cnt, log, ev string) []*S {
 	}
 	return append(out, Emit(Var(cnt), Dot(Var(ev), "tag"), CallN("pcall", Fn(nil, false, Return(Un("len", Var(log)))))))
 }
+
+// ---- C14: programs that stress the register / continuation / cell pools -----------------------
+
+// tPoolStress: deep and tail recursion, closures captured in loops, error unwinding through many frames,
+// many distinct frame sizes, metamethod re-entrancy, varargs of varying length.
+func (g *G) tPoolStress() []*S {
+	switch g.pick(7) {
+	case 0:
+		// deep non-tail recursion with captured variables and a frame of varying size
+		g.feat("closure")
+		f := g.fresh("deep")
+		depth := int64(20 + g.pick(120))
+		return []*S{LocalFn(f, []string{"n"}, false,
+			Local([]string{"a", "b", "c"}, Var("n"), Bin("mul", Var("n"), Int(2)), Bin("add", Var("n"), Int(1))),
+			LocalFn("g", nil, false, Return(Bin("add", Var("a"), Bin("sub", Var("b"), Var("c"))))),
+			If(Bin("eq", Var("n"), Int(0)), []*S{Return(Int(0))}, nil),
+			Return(Bin("add", Call(Var("g")), Call(Var(f), Bin("sub", Var("n"), Int(1)))))),
+			Emit(Call(Var(f), Int(depth)))}
+	case 1:
+		// long tail-call chain between two functions (continuations are recycled)
+		a, b := g.fresh("ta"), g.fresh("tb")
+		n := int64(200 + g.pick(3000))
+		return []*S{Local([]string{a, b}),
+			Assign1(Var(a), Fn([]string{"n", "acc"}, false, If(Bin("eq", Var("n"), Int(0)), []*S{Return(Var("acc"))}, nil), Return(Call(Var(b), Bin("sub", Var("n"), Int(1)), Bin("add", Var("acc"), Int(1)))))),
+			Assign1(Var(b), Fn([]string{"n", "acc"}, false, Return(Call(Var(a), Var("n"), Bin("bxor", Var("acc"), Var("n")))))),
+			Emit(Call(Var(a), Int(n), Int(0)))}
+	case 2:
+		// an error thrown under many frames, caught at the top; then the same functions are used again
+		g.feat("error")
+		f := g.fresh("unw")
+		depth := int64(10 + g.pick(80))
+		return []*S{LocalFn(f, []string{"n", "t"}, false,
+			Local([]string{"x", "y"}, Bin("mul", Var("n"), Int(3)), Tbl(Pos(Var("n")))),
+			If(Bin("eq", Var("n"), Int(0)), []*S{CallS(CallN("error", Var("t")))}, nil),
+			Local1("r", Call(Var(f), Bin("sub", Var("n"), Int(1)), Var("t"))),
+			Return(Bin("add", Var("r"), Bin("add", Var("x"), Idx(Var("y"), Int(1)))))),
+			Local1("tag", Tbl()),
+			Local([]string{"ok", "e"}, CallN("pcall", Var(f), Int(depth), Var("tag"))),
+			Emit(Var("ok"), Bin("eq", Var("e"), Var("tag"))),
+			Emit(CallN("pcall", Var(f), Int(3), Str("again")))}
+	case 3:
+		// functions with many different frame sizes, called in a loop
+		g.feat("loop")
+		var out []*S
+		var names []string
+		for k := 1; k <= 3+g.pick(8); k++ {
+			f := g.fresh("fr")
+			names = append(names, f)
+			var locals []string
+			var vals []*E
+			sum := Var("p")
+			for j := 0; j < k*2; j++ {
+				n := g.fresh("l")
+				locals = append(locals, n)
+				vals = append(vals, Bin("add", Var("p"), Int(int64(j))))
+				sum = Bin("add", sum, Var(n))
+			}
+			out = append(out, LocalFn(f, []string{"p"}, false, Local(locals, vals...), Return(sum)))
+		}
+		var calls []*E
+		for _, f := range names {
+			calls = append(calls, Call(Var(f), Var("i")))
+		}
+		return append(out, ForNum("i", Int(1), Int(int64(3+g.pick(20))), nil, Emit(calls...)))
+	case 4:
+		// metamethod re-entrancy: __index functions and __add handlers that trigger further metamethods
+		g.feat("metamethod")
+		mt, a := g.fresh("rmt"), g.fresh("ro")
+		depth := int64(2 + g.pick(12))
+		return []*S{Local1(mt, Tbl()),
+			Assign1(Dot(Var(mt), "__index"), Fn([]string{"t", "k"}, false,
+				If(Bin("le", Var("k"), Int(0)), []*S{Return(Int(0))}, nil),
+				Return(Bin("add", Var("k"), Idx(CallN("setmetatable", Tbl(), Var(mt)), Bin("sub", Var("k"), Int(1))))))),
+			Assign1(Dot(Var(mt), "__add"), Fn([]string{"x", "y"}, false,
+				If(Bin("eq", CallN("type", Var("y")), Str("number")), []*S{If(Bin("le", Var("y"), Int(0)), []*S{Return(Int(0))}, nil), Return(Bin("add", Int(1), Bin("add", Var("x"), Bin("sub", Var("y"), Int(1)))))}, nil),
+				Return(Int(-1)))),
+			Local1(a, CallN("setmetatable", Tbl(), Var(mt))),
+			Emit(Idx(Var(a), Int(depth)), Bin("add", Var(a), Int(depth)))}
+	case 5:
+		// varargs of growing length passed down and back
+		g.feat("vararg")
+		f := g.fresh("vg")
+		n := int64(3 + g.pick(25))
+		return []*S{LocalFn(f, []string{"n"}, true,
+			If(Bin("eq", Var("n"), Int(0)), []*S{Return(CallN("select", Str("#"), Vararg()), Vararg())}, nil),
+			Return(Call(Var(f), Bin("sub", Var("n"), Int(1)), Var("n"), Vararg()))),
+			Emit(Call(Var(f), Int(n)))}
+	default:
+		// many closures created in nested loops, each capturing its own variables; called later in another order
+		g.feat("closure")
+		g.feat("loop")
+		fs := g.fresh("cl")
+		n, m := int64(2+g.pick(6)), int64(2+g.pick(6))
+		return []*S{Local1(fs, Tbl()),
+			ForNum("i", Int(1), Int(n), nil, ForNum("j", Int(1), Int(m), nil,
+				Local1("k", Bin("add", Bin("mul", Var("i"), Int(100)), Var("j"))),
+				Assign1(Idx(Var(fs), Bin("add", Un("len", Var(fs)), Int(1))), Fn(nil, false, Assign1(Var("k"), Bin("add", Var("k"), Int(1))), Return(Var("i"), Var("j"), Var("k")))))),
+			ForNum("q", Un("len", Var(fs)), Int(1), Int(-1), Emit(Call(Idx(Var(fs), Var("q"))))),
+			Emit(Call(Idx(Var(fs), Int(1))))}
+	}
+}
